@@ -13,7 +13,12 @@ import (
 func init() {
 	props["C10"] = runC10
 	reg("html_escaped", 1, func(c *caseWriter, in []string) {
-		o := safehtml.HTMLEscaped(in[0]).String()
+		outcome, o := guard(func() (string, string) { return "ok", safehtml.HTMLEscaped(in[0]).String() })
+		if outcome != "ok" {
+			// HTMLEscaped is total: a panic is reported as an output that no specification clause accepts
+			c.Case("html_escaped", hx(in[0]), hx("<panic>"), hx("<panic>"))
+			return
+		}
 		c.Case("html_escaped", hx(in[0]), hx(o), hx(html.UnescapeString(o)))
 	})
 	reg("html_concat", 3, func(c *caseWriter, in []string) {
@@ -23,7 +28,18 @@ func init() {
 			hs = append(hs, safehtml.HTMLEscaped(s))
 			fields = append(fields, hx(s))
 		}
-		fields = append(fields, hx(safehtml.HTMLConcat(hs...).String()))
+		// the caller's slice is passed as the variadic argument, twice: the result must be the plain
+		// concatenation both times and the slice must not be written to
+		before := append([]safehtml.HTML(nil), hs...)
+		first := safehtml.HTMLConcat(hs...).String()
+		second := safehtml.HTMLConcat(hs...).String()
+		kept := "1"
+		for i := range hs {
+			if hs[i].String() != before[i].String() {
+				kept = "0"
+			}
+		}
+		fields = append(fields, hx(first), hx(second), kept)
 		c.Case("html_concat", fields...)
 	})
 }
@@ -94,6 +110,10 @@ func runC10(c *caseWriter) (string, bool, map[string]int) {
 	}
 	for i := 0; i < 200; i++ {
 		emit(c, "html_concat", randFrom(alphabet, 6), randFrom(alphabet, 6), randFrom(alphabet, 6))
+	}
+	// empty pieces at every position
+	for _, tr := range [][3]string{{"", "a", "b"}, {"a", "", "b"}, {"a", "b", ""}, {"", "", "a"}, {"", "a", ""}, {"a", "", ""}, {"", "", ""}, {"<b>", "", "x"}, {"&", "", "<"}} {
+		emit(c, "html_concat", tr[0], tr[1], tr[2])
 	}
 	return fmt.Sprintf("all 1- and 2-byte strings (65,792), every code point with stride %d, every range-table boundary +-1 in all 17 planes, malformed UTF-8 shapes at start/middle/end, random mixes up to 24 symbols, 200 concatenations; non-trivial = the output differs from the input", step), true, nil
 }
